@@ -6,14 +6,13 @@ firing inside `subject.observable()`), part 1: storing `sbsc` for the subscripti
 namespace Rx.CRef
 open Rx.Sim Rx.SubjM Rx.Ref Rx.RefR
 
-def LayR.store (L : LayR) (a : Nat) : LayR := { L with acs := L.acs ++ [a] }
-
 theorem rootAt_getD_lt {l : List Nat} {x i : Nat} (h : i < l.length) : rootAt (l ++ [x]) i = rootAt l i :=
   rootAt_append_lt l x h
 
 /-- the pending subscription `n` gets its `sbsc` stored (armed flag allocated at the end of the cells); its
-    observers, log and the inner map may change at the same time -/
-theorem RelRp.storeUser {L cobs cacs armed pend Hd w st n} (h : RelRp L cobs cacs armed pend (some n) Hd w st)
+    observers, log and the inner map may change at the same time — the users' side -/
+theorem URr.storeUser {L cobs cacs pend Hd cg sb cn w n} {s : SubjM.State}
+    (hur : URr L cobs cacs pend (some n) Hd cg sb cn w s)
     (w' : World) (r' : ObsSt) (O' : List (Nat × Nat))
     (hstatus : w'.status = w.status) (hheld : w'.held = w.held) (hslots : w'.slots = w.slots)
     (hobsvs : w'.obsvs = w.obsvs) (hobsLen : w'.obs.length = w.obs.length)
@@ -27,12 +26,12 @@ theorem RelRp.storeUser {L cobs cacs armed pend Hd w st n} (h : RelRp L cobs cac
     (hlogs : ∀ u, u ≠ n → logOf w' u = logOf w u)
     (hroot : w'.obs[rootAt L.roots n]? = some (rootOfL (rootAt L.sbs n) n r'))
     (hfwd : w'.obs[rootAt L.fwds n]? = some (fwdOfL (rootAt L.roots n) r'))
-    (hlog : logOf w' n = r'.log) (hhook : r'.hook = (st.sub.obs n).hook) (hseen : r'.seen = true)
+    (hlog : logOf w' n = r'.log) (hhook : r'.hook = (s.obs n).hook) (hseen : r'.seen = true)
     (hdead : r'.hook = false → r'.alive = false)
-    (hkeys : ∀ p ∈ O', p.1 ≤ st.sub.serial) (hreg : ∀ p ∈ O', p.2 < L.roots.length) :
-    RelRp (L.store w.cells.length) cobs cacs armed pend none Hd w'
-      { st with sub := { st.sub with observers := O', obs := upd st.sub.obs n r' } } := by
-  obtain ⟨g, U, X⟩ := h.ur
+    (hkeys : ∀ p ∈ O', p.1 ≤ s.serial) (hreg : ∀ p ∈ O', p.2 < L.roots.length) :
+    URr (L.store w.cells.length) cobs cacs pend none Hd cg sb cn w'
+      { s with observers := O', obs := upd s.obs n r' } := by
+  obtain ⟨g, U, X⟩ := hur
   have hn : n + 1 = L.roots.length := U.unstLast n rfl
   have hnl : n < L.roots.length := by omega
   have hacsl : L.acs.length = n := by have := U.lenA; simp at this; omega
@@ -47,7 +46,7 @@ theorem RelRp.storeUser {L cobs cacs armed pend Hd w st n} (h : RelRp L cobs cac
     fun u hu => rootAt_append_lt _ _ (by omega)
   have hacn : rootAt (L.acs ++ [w.cells.length]) n = w.cells.length := by rw [← hacsl, rootAt_append_last]
   have U' : UsersPartR (L.store w.cells.length) pend none w'
-      { st.sub with observers := O', obs := upd st.sub.obs n r' } := by
+      { s with observers := O', obs := upd s.obs n r' } := by
     refine
       { lenF := U.lenF, lenS := U.lenS
         lenA := by simp [LayR.store, hacsl]; omega
@@ -113,35 +112,62 @@ theorem RelRp.storeUser {L cobs cacs armed pend Hd w st n} (h : RelRp L cobs cac
       rcases List.mem_append.1 hc' with hc' | hc'
       · have := U.cellsGe c hc'; omega
       · simp at hc'; subst hc'; omega
-  refine ⟨g', hheld ▸ h.held, ⟨g', U', ?_⟩, ?_⟩
-  · exact
-      { X with
-        held := hheld ▸ X.held, slot0 := hslots ▸ X.slot0, slot1 := hslots ▸ X.slot1, slot2 := hslots ▸ X.slot2
-        slot3 := hslots ▸ X.slot3, obsvH := hobsvs ▸ X.obsvH, obsvS := hobsvs ▸ X.obsvS
-        cellG := by rw [hcells 7 (by omega) (by omega) (by omega)]; exact X.cellG
-        cellB := by rw [hcells 8 (by omega) (by omega) (by omega)]; exact X.cellB
-        cellN := by rw [hcells 9 (by omega) (by omega) (by omega)]; exact X.cellN
-        caGe := fun c hc => by rw [hclen]; have := X.caGe c hc; omega
-        caDisj := fun c hc hm => by
-          have hm' : c ∈ (L.sbs ++ L.acs) ++ [w.cells.length] := by
-            simpa [LayR.store, List.append_assoc] using hm
-          rcases List.mem_append.1 hm' with hm' | hm'
-          · exact X.caDisj c hc hm'
-          · simp at hm'; subst hm'; have := (X.caGe _ hc).2; omega }
-  · refine h.conns.frame (hcells 0 (by decide) (by omega) (by omega)) (hcells 1 (by decide) (by omega) (by omega)) ?_ ?_
-    · intro i hi
-      have hic : i < cobs.length := h.conns.lenC ▸ hi
-      exact hothers _ (fun e => GlobR.root_ne_cob g hnl hic e.symm) (fun e => GlobR.fwd_ne_cob g hlf hic e.symm)
-    · intro i hi
-      have hm := rootAt_mem (l := cacs) (i := i) (by rw [X.lenCa, h.conns.lenC]; exact hi)
-      have := X.caGe _ hm
-      refine hcells _ (by omega) (fun e => ?_) this.2
-      exact X.caDisj _ hm (e ▸ List.mem_append_left _ (rootAt_mem (U.lenS ▸ hnl)))
+  refine ⟨g', U', ?_⟩
+  exact
+    { X with
+      held := hheld ▸ X.held, slot0 := hslots ▸ X.slot0, slot1 := hslots ▸ X.slot1, slot2 := hslots ▸ X.slot2
+      slot3 := hslots ▸ X.slot3, obsvS := hobsvs ▸ X.obsvS
+      cellG := by rw [hcells 7 (by omega) (by omega) (by omega)]; exact X.cellG
+      cellB := by rw [hcells 8 (by omega) (by omega) (by omega)]; exact X.cellB
+      cellN := by rw [hcells 9 (by omega) (by omega) (by omega)]; exact X.cellN
+      caGe := fun c hc => by rw [hclen]; have := X.caGe c hc; omega
+      caDisj := fun c hc hm => by
+        have hm' : c ∈ (L.sbs ++ L.acs) ++ [w.cells.length] := by
+          simpa [LayR.store, List.append_assoc] using hm
+        rcases List.mem_append.1 hm' with hm' | hm'
+        · exact X.caDisj c hc hm'
+        · simp at hm'; subst hm'; have := (X.caGe _ hc).2; omega }
+
+/-- the same at the level of the whole relation -/
+theorem RelRp.storeUser {L cobs cacs armed pend Hd w st n} (h : RelRp L cobs cacs armed pend (some n) Hd w st)
+    (w' : World) (r' : ObsSt) (O' : List (Nat × Nat))
+    (hstatus : w'.status = w.status) (hheld : w'.held = w.held) (hslots : w'.slots = w.slots)
+    (hobsvs : w'.obsvs = w.obsvs) (hobsLen : w'.obs.length = w.obs.length)
+    (hclen : w'.cells.length = w.cells.length + 1)
+    (hcell2 : w'.cells[2]? = some (encMap (mapL L O')))
+    (hcells : ∀ i, i ≠ 2 → i ≠ rootAt L.sbs n → i < w.cells.length → w'.cells[i]? = w.cells[i]?)
+    (hsb : w'.cells[rootAt L.sbs n]? = some (handleL (L.store w.cells.length) n))
+    (hac : w'.cells[w.cells.length]? = some (.bool r'.armed))
+    (husers : w'.users = w.users)
+    (hothers : ∀ i, i ≠ rootAt L.roots n → i ≠ rootAt L.fwds n → w'.obs[i]? = w.obs[i]?)
+    (hlogs : ∀ u, u ≠ n → logOf w' u = logOf w u)
+    (hroot : w'.obs[rootAt L.roots n]? = some (rootOfL (rootAt L.sbs n) n r'))
+    (hfwd : w'.obs[rootAt L.fwds n]? = some (fwdOfL (rootAt L.roots n) r'))
+    (hlog : logOf w' n = r'.log) (hhook : r'.hook = (st.sub.obs n).hook) (hseen : r'.seen = true)
+    (hdead : r'.hook = false → r'.alive = false)
+    (hkeys : ∀ p ∈ O', p.1 ≤ st.sub.serial) (hreg : ∀ p ∈ O', p.2 < L.roots.length) :
+    RelRp (L.store w.cells.length) cobs cacs armed pend none Hd w'
+      { st with sub := { st.sub with observers := O', obs := upd st.sub.obs n r' } } := by
+  have hur' := h.ur.storeUser w' r' O' hstatus hheld hslots hobsvs hobsLen hclen hcell2 hcells hsb hac husers hothers
+    hlogs hroot hfwd hlog hhook hseen hdead hkeys hreg
+  obtain ⟨g, U, X⟩ := h.ur
+  have hn : n + 1 = L.roots.length := U.unstLast n rfl
+  have hnl : n < L.roots.length := by omega
+  have hlf : n < L.fwds.length := U.lenF ▸ hnl
+  have h9 : 9 < w.cells.length := lt_of_getElem?_some X.cellN
+  have hsbn := U.sb_ge hnl
+  refine ⟨hur'.1, hheld ▸ h.held, hur', ?_⟩
+  refine h.conns.frame (hcells 0 (by decide) (by omega) (by omega)) (hcells 1 (by decide) (by omega) (by omega)) ?_ ?_ hobsvs
+  · intro i hi
+    have hic : i < cobs.length := h.conns.lenC ▸ hi
+    exact hothers _ (fun e => GlobR.root_ne_cob g hnl hic e.symm) (fun e => GlobR.fwd_ne_cob g hlf hic e.symm)
+  · intro i hi
+    have hm := rootAt_mem (l := cacs) (i := i) (by rw [X.lenCa, h.conns.lenC]; exact hi)
+    have := X.caGe _ hm
+    refine hcells _ (by omega) (fun e => ?_) this.2
+    exact X.caDisj _ hm (e ▸ List.mem_append_left _ (rootAt_mem (U.lenS ▸ hnl)))
 
 /-! ### the `SubjM` side of the hand-over -/
-
-/-- the record of a subscription that `subscribeA .replay` has just registered under serial `s1` -/
-def regRec (s1 : Nat) : ObsSt := { seen := true, alive := true, hook := true, inAlive := true, inHook := some s1 }
 
 def liveRecS (s1 : Nat) (items : List Data) : ObsSt :=
   { seen := true, alive := true, hook := true, inAlive := true, inHook := some s1, armed := true, log := items.map .next }
